@@ -200,6 +200,8 @@ func C03(c *Ctx) {
 	c.R.Rule("C03-R1", "E1", "inputs untouched: no write to pattern, fact, bindings or globals in Match's closure", 8)
 	c.R.Rule("C03-R2", "E1", "returned binding sets never alias the given bindings", 3)
 	c.R.Rule("C03-R3", "E3", "no map range with exits of two outcome classes (error vs no match)", 3)
+	c.shareRule("C07", "C07-R9", "C03-R6", "a bound value is data: it is compared, never expanded as a pattern again (else the outcome depends on which member of a map is visited first)")
+	c.shareRule("C01", "C01-R1", "C03-R7", "a binding is made once and later occurrences compare with it: a binding that can be overwritten makes the result depend on the order in which members are visited")
 	c.R.Rule("C03-R5", "E5+E3", "results are independent: alternatives never share writable bindings", 2)
 	a, entries := c.matchAnalysis()
 	if a == nil {
